@@ -6,7 +6,7 @@ for (const line of lines) {
   const c = JSON.parse(line).case;
   const LOG = [];
   const O = [], KC = new Map(), OC = new Map();
-  const K = ["0","1","2","3","10","4294967294","4294967295","-0","1e3","01","a","b","c","1.0","4294967296","10000000000","apply","abs","parse",Symbol("s0"),Symbol("s1"),Symbol("s2"),Symbol("s3")];
+  const K = ["0","1","2","3","10","4294967294","4294967295","-0","1e3","01","a","b","c","1.0","4294967296","10000000000","apply","abs","parse",Symbol("s0"),Symbol("s1"),Symbol("s2"),Symbol("s3"),Symbol.toStringTag,Symbol.hasInstance];
   const KN = {0:0,1:1,2:2,3:3,4:10,5:4294967294,6:4294967295,14:4294967296,15:10000000000};
   K.forEach((k,i)=>KC.set(k,i));
   const FN = [];
@@ -32,9 +32,10 @@ for (const line of lines) {
     case "string": return new String("");
     case "bound": return (function(){}).bind(null);
     case "arrow": return ()=>1;
-    case "math": return Object.defineProperty({}, "abs", {value: Math.abs, writable: true, enumerable: false, configurable: true});
-    case "json": return Object.defineProperty({}, "parse", {value: JSON.parse, writable: true, enumerable: false, configurable: true});
-    case "reflect": case "funcproto": return Object.defineProperty({}, "apply", {value: Reflect.apply, writable: true, enumerable: false, configurable: true});
+    case "math": return Object.defineProperties({}, {abs: {value: Math.abs, writable: true, enumerable: false, configurable: true}, [Symbol.toStringTag]: {value: "Math", configurable: true}});
+    case "json": return Object.defineProperties({}, {parse: {value: JSON.parse, writable: true, enumerable: false, configurable: true}, [Symbol.toStringTag]: {value: "JSON", configurable: true}});
+    case "reflect": return Object.defineProperties({}, {apply: {value: Reflect.apply, writable: true, enumerable: false, configurable: true}, [Symbol.toStringTag]: {value: "Reflect", configurable: true}});
+    case "funcproto": return Object.defineProperties({}, {apply: {value: Reflect.apply, writable: true, enumerable: false, configurable: true}, [Symbol.hasInstance]: {value: Function.prototype[Symbol.hasInstance]}});
     default: return {}; } }
   c.kinds.forEach((k,i)=>{ const o=MK(k); O.push(o); OC.set(o,i); });
   c.protos.forEach((p,i)=>{ if (i<O.length) Object.setPrototypeOf(O[i], (p<0||p>=i)?null:O[p]); });
